@@ -214,21 +214,38 @@ Proof.
   destruct n as [k t s pe v kids]. reflexivity.
 Qed.
 
-(** if the instantiate walk stops below [n], it stopped at an attribute that was set *)
-Lemma up_false_set p f : forall n m,
-  node_at p n = Some m -> snd (update_at p f true n) = false ->
-  exists q a, prefix q p = true /\ path_eqb q p = false /\ node_at q n = Some a /\ aisset a = true.
+Definition deq (d1 d2 : dictionary) : Prop := forall q, d1 q = d2 q.
+
+Lemma below_unset_ext r : forall d1 d2, deq d1 d2 -> below_unset d1 r = below_unset d2 r.
 Proof.
-  induction p as [|c rest IH]; intros n m Hn Hu; [cbn in Hu; discriminate|].
+  induction r as [|c r IH]; intros d1 d2 H; [reflexivity|]. cbn [below_unset].
+  unfold unset_at. rewrite (H []). f_equal. apply IH. intro z. apply H.
+Qed.
+
+Lemma inst_reach_ext q : forall p d1 d2, deq d1 d2 -> inst_reach d1 q p = inst_reach d2 q p.
+Proof.
+  induction q as [|x q IH]; intros [|y p] d1 d2 H; cbn [inst_reach]; try reflexivity.
+  - apply below_unset_ext. intro z. apply H.
+  - f_equal. apply IH. intro z. apply H.
+Qed.
+
+Lemma dict_of_child n c ch : child c (akids n) = Some ch ->
+  deq (fun z => dict_of n (c :: z)) (dict_of ch).
+Proof. intros H z. unfold dict_of. now rewrite node_at_cons, H. Qed.
+
+(** the instantiate walk reaches [n] iff every attribute between [n] (included)
+    and the target (excluded) is without a value *)
+Lemma up_spec p f : forall n m,
+  node_at p n = Some m -> snd (update_at p f true n) = below_unset (dict_of n) p.
+Proof.
+  induction p as [|c rest IH]; intros n m Hn; [reflexivity|].
   rewrite node_at_cons in Hn. destruct (child c (akids n)) as [ch|] eqn:Ec; [|discriminate].
   destruct (child_some _ _ _ Ec) as (i & Hi & Hnth).
   pose proof (update_at_cons c rest f true n i ch Hi Hnth) as Hs.
-  destruct (update_at rest f true ch) as [ch' up] eqn:Eu. rewrite Hs in Hu. cbn [snd] in Hu.
-  apply andb_false_iff in Hu as [Hu|Hu].
-  - subst up. destruct (IH ch m Hn) as (q & a & Hp & Hne & Ha & Hsa); [now rewrite Eu|].
-    exists (c :: q), a. rewrite prefix_cons, beqb_refl. cbn [path_eqb]. rewrite beqb_refl.
-    repeat split; auto. rewrite node_at_cons, Ec. exact Ha.
-  - apply negb_false_iff in Hu. exists [], n. repeat split; auto.
+  specialize (IH ch m Hn).
+  destruct (update_at rest f true ch) as [ch' up] eqn:Eu. rewrite Hs. cbn [snd] in *.
+  cbn [below_unset]. rewrite (below_unset_ext rest _ _ (dict_of_child n c ch Ec)), <- IH.
+  unfold unset_at, dict_of. cbn [node_at option_map entry_of e_set]. apply andb_comm.
 Qed.
 
 Lemma node_at_store_val_below v n c r :
@@ -243,10 +260,10 @@ Proof. destruct n as [k t s p x kids]. reflexivity. Qed.
 
 (** setting: the tree's dictionary becomes [d_set] of itself *)
 Theorem dict_set v p : forall n m,
-  anc_closed n -> node_at p n = Some m ->
+  node_at p n = Some m ->
   forall q, dict_of (fst (update_at p (store_val v) true n)) q = d_set p v (dict_of n) q.
 Proof.
-  induction p as [|c rest IH]; intros n m Hcl Hn q.
+  induction p as [|c rest IH]; intros n m Hn q.
   - cbn [update_at fst]. unfold dict_of, d_set.
     destruct q as [|c' r].
     + cbn [node_at option_map path_eqb]. now rewrite entry_store_val.
@@ -256,31 +273,26 @@ Proof.
     destruct (child_some _ _ _ Ec) as (i & Hi & Hnth).
     pose proof (update_at_cons c rest (store_val v) true n i ch Hi Hnth) as Hs.
     pose proof (update_at_key rest (store_val v) true (store_val_key v) ch) as Hk.
-    pose proof (up_false_set rest (store_val v) ch m Hn) as Hup.
+    pose proof (up_spec rest (store_val v) ch m Hn) as Hup.
     destruct (update_at rest (store_val v) true ch) as [ch' up] eqn:Eu. rewrite Hs. cbn [fst snd] in *.
     assert (Hkc : akey ch' = c) by (rewrite Hk; now apply (child_index_key c (akids n) i ch)).
-    unfold dict_of, d_set. destruct q as [|c' r].
+    unfold d_set. destruct q as [|c' r].
     + (* the ancestor itself *)
-      cbn [node_at option_map]. cbn [path_eqb]. rewrite strict_prefix_nil_l. cbn [negb].
-      unfold entry_of; cbn [aty aisset apersist aval_of]. f_equal. f_equal.
-      destruct up; [reflexivity|].
-      destruct (Hup eq_refl) as (q & a & Hp & Hne & Ha & Hsa).
-      (* an attribute on the way is set, hence so is this ancestor *)
-      destruct (Hcl (c :: q) a) with (q' := @nil bytes) as (x & Hx & Hsx).
-      * rewrite node_at_cons, Ec. exact Ha.
-      * exact Hsa.
-      * reflexivity.
-      * cbn in Hx. injection Hx as <-. exact Hsx.
-    + rewrite !node_at_cons. cbn [akids].
+      unfold dict_of at 1 2. cbn [node_at option_map path_eqb inst_reach].
+      rewrite (below_unset_ext rest _ _ (dict_of_child n c ch Ec)), <- Hup.
+      unfold entry_of; cbn [aty aisset apersist aval_of e_ty e_set e_persist e_val].
+      destruct up; [reflexivity|]. destruct n as [k t s pe x kids]. reflexivity.
+    + unfold dict_of at 1 2. rewrite !node_at_cons. cbn [akids].
       destruct (bytes_eqb c' c) eqn:Ecc.
       * apply beqb_eq in Ecc. subst c'.
         rewrite (child_replace_same (akids n) i ch' c Hi Hkc), Ec.
-        pose proof (IH ch m (anc_closed_child n c ch Hcl Ec) Hn r) as H.
-        rewrite Eu in H. cbn [fst] in H. unfold dict_of, d_set in H. rewrite H.
-        cbn [path_eqb]. rewrite strict_prefix_cons, beqb_refl. reflexivity.
+        pose proof (IH ch m Hn r) as H.
+        rewrite Eu in H. cbn [fst] in H. unfold dict_of at 1, d_set in H. rewrite H.
+        cbn [path_eqb inst_reach]. rewrite beqb_refl. cbn [andb].
+        rewrite (inst_reach_ext r rest _ _ (dict_of_child n c ch Ec)). reflexivity.
       * assert (Hne : c' <> c) by (intro E; subst; rewrite beqb_refl in Ecc; discriminate).
         rewrite (child_replace_other (akids n) i ch' c c' Hi Hkc Hne).
-        cbn [path_eqb]. rewrite strict_prefix_cons, Ecc. cbn [andb].
+        cbn [path_eqb inst_reach]. rewrite Ecc. cbn [andb].
         destruct (child c' (akids n)) as [x|]; [|reflexivity].
         destruct (node_at r x); reflexivity.
 Qed.
@@ -376,8 +388,6 @@ Definition dclosed (d : dictionary) : Prop :=
   forall q e, d q = Some e -> e_set e = true ->
   forall q', strict_prefix q' q = true -> exists e', d q' = Some e' /\ e_set e' = true.
 
-Definition deq (d1 d2 : dictionary) : Prop := forall q, d1 q = d2 q.
-
 Lemma dclosed_deq d1 d2 : deq d1 d2 -> dclosed d1 -> dclosed d2.
 Proof.
   intros He H q e Hq Hs q' Hp. rewrite <- He in Hq.
@@ -394,39 +404,6 @@ Proof.
     destruct (H q (entry_of m)) with (q' := q') as (e' & He & Hse); auto.
     + now rewrite Hq.
     + destruct (node_at q' n) as [a|]; [|discriminate]. cbn in He. injection He as <-. eauto.
-Qed.
-
-Lemma dclosed_set p v d e :
-  d p = Some e -> (forall q', strict_prefix q' p = true -> exists e', d q' = Some e') ->
-  dclosed d -> dclosed (d_set p v d).
-Proof.
-  intros Hp Hanc Hc q x Hq Hs q' Hpre. unfold d_set in *.
-  destruct (d q) as [eq|] eqn:Edq; [|discriminate].
-  assert (Hex : exists e', d q' = Some e' /\ (strict_prefix q' p = true \/ e_set e' = true)).
-  { destruct (path_eqb q p) eqn:E1.
-    - apply peqb_eq in E1. subst q. destruct (Hanc q' Hpre) as (e' & He'). eauto.
-    - destruct (strict_prefix q p) eqn:E2.
-      + assert (Hqp : strict_prefix q' p = true).
-        { apply strict_prefix_spec in E2 as [E2 _]. eapply strict_prefix_trans_l; eauto. }
-        destruct (Hanc q' Hqp) as (e' & He'). eauto.
-      + injection Hq as <-. destruct (Hc q eq Edq Hs q' Hpre) as (e' & He' & Hs'). eauto. }
-  destruct Hex as (e' & He' & Hor). rewrite He'.
-  destruct (path_eqb q' p) eqn:E3; [eexists; split; [reflexivity|reflexivity]|].
-  destruct (strict_prefix q' p) eqn:E4; [eexists; split; [reflexivity|reflexivity]|].
-  destruct Hor as [Hor|Hor]; [discriminate|]. eauto.
-Qed.
-
-Lemma dclosed_clear p d : dclosed d -> dclosed (d_clear p d).
-Proof.
-  intros Hc q x Hq Hs q' Hpre. unfold d_clear in *.
-  destruct (d q) as [eq|] eqn:Edq; [|discriminate].
-  destruct (prefix p q) eqn:E1.
-  - injection Hq as <-. discriminate.
-  - injection Hq as <-. destruct (Hc q eq Edq Hs q' Hpre) as (e' & He' & Hs'). rewrite He'.
-    destruct (prefix p q') eqn:E2.
-    + exfalso. apply strict_prefix_spec in Hpre as [Hpre _].
-      rewrite (prefix_trans p q' q E2 Hpre) in E1. discriminate.
-    + eauto.
 Qed.
 
 (** ancestors of an existing attribute exist *)
@@ -446,6 +423,16 @@ Lemma d_get_set_same p v d e :
   d_get p (d_set p v d) = (KDUMP_OK, e_ty e, match e_ty e with TDir => e_val e | _ => v end).
 Proof. intro H. unfold d_get, d_set. rewrite H, peqb_refl. reflexivity. Qed.
 
+Lemma below_unset_false_nil d : below_unset d [] = true.
+Proof. reflexivity. Qed.
+
+Lemma inst_reach_prefix q : forall p d, inst_reach d q p = true -> strict_prefix q p = true.
+Proof.
+  induction q as [|x q IH]; intros [|y p] d H; cbn [inst_reach] in H; try discriminate.
+  - reflexivity.
+  - apply andb_prop in H as [E H]. rewrite strict_prefix_cons, E. cbn. eapply IH; eauto.
+Qed.
+
 (** ... until it is set again or cleared: a set elsewhere does not change it *)
 Lemma d_get_set_other p q v d :
   prefix q p = false -> d_get q (d_set p v d) = d_get q d.
@@ -453,19 +440,25 @@ Proof.
   intro H. unfold d_get, d_set. destruct (d q) as [e|]; [|reflexivity].
   assert (E1 : path_eqb q p = false).
   { destruct (path_eqb q p) eqn:E; [|reflexivity]. apply peqb_eq in E. subst. now rewrite prefix_refl in H. }
-  assert (E2 : strict_prefix q p = false) by (unfold strict_prefix; now rewrite H).
+  assert (E2 : inst_reach d q p = false).
+  { destruct (inst_reach d q p) eqn:E; [|reflexivity]. apply inst_reach_prefix in E.
+    unfold strict_prefix in E. rewrite H in E. discriminate. }
   now rewrite E1, E2.
 Qed.
 
-(** a set makes the ancestors report a value and changes nothing else about them *)
+(** a set never takes a value away from an ancestor, and never changes its type,
+    value or persistence; the ancestors reached by the walk get a value *)
 Lemma d_get_set_ancestor p q v d e :
-  strict_prefix q p = true -> d q = Some e -> d_get q (d_set p v d) = (KDUMP_OK, e_ty e, e_val e).
+  strict_prefix q p = true -> d q = Some e ->
+  d_set p v d q = Some {| e_ty := e_ty e; e_set := e_set e || inst_reach d q p;
+                          e_persist := e_persist e; e_val := e_val e |}.
 Proof.
-  intros H Hq. unfold d_get, d_set. rewrite Hq.
+  intros H Hq. unfold d_set. rewrite Hq.
   assert (E1 : path_eqb q p = false).
   { destruct (path_eqb q p) eqn:E; [|reflexivity]. apply peqb_eq in E.
     apply strict_prefix_spec in H as [_ H]. contradiction. }
-  now rewrite E1, H.
+  rewrite E1. destruct (inst_reach d q p); [now rewrite orb_true_r|].
+  rewrite orb_false_r. now destruct e.
 Qed.
 
 (** clearing makes the attribute and everything below it report no value ... *)
@@ -517,46 +510,32 @@ Proof.
 Qed.
 
 Lemma tset_step p ty v n :
-  anc_closed n ->
   fst (tset p ty v n) = fst (d_step p ty v (dict_of n)) /\
-  deq (dict_of (snd (tset p ty v n))) (snd (d_step p ty v (dict_of n))) /\
-  anc_closed (snd (tset p ty v n)).
+  deq (dict_of (snd (tset p ty v n))) (snd (d_step p ty v (dict_of n))).
 Proof.
-  intro Hcl. rewrite tset_unfold. unfold d_step.
+  rewrite tset_unfold. unfold d_step.
   assert (Hd : dict_of n p = option_map entry_of (node_at p n)) by reflexivity. rewrite Hd.
   destruct (node_at p n) as [m|] eqn:Hm; cbn [option_map].
-  2:{ cbn [fst snd]. split; [reflexivity|]. split; [intro q; reflexivity|exact Hcl]. }
-  assert (Hanc : forall q', strict_prefix q' p = true -> exists e', dict_of n q' = Some e').
-  { intros q' Hq'. apply strict_prefix_spec in Hq' as [Hq' _].
-    destruct (node_at_prefix q' p n m Hm Hq') as (a & Ha). unfold dict_of. rewrite Ha. cbn. eauto. }
-  assert (Hset : anc_closed (fst (update_at p (store_val v) true n))).
-  { apply anc_closed_dclosed. apply (dclosed_deq (d_set p v (dict_of n))).
-    - intro q. symmetry. apply (dict_set v p n m Hcl Hm).
-    - apply (dclosed_set p v (dict_of n) (entry_of m)); [unfold dict_of; now rewrite Hm|exact Hanc|].
-      now apply anc_closed_dclosed. }
-  assert (Hclr : anc_closed (fst (update_at p clear_node false n))).
-  { apply anc_closed_dclosed. apply (dclosed_deq (d_clear p (dict_of n))).
-    - intro q. symmetry. apply (dict_clear p n m Hm).
-    - apply dclosed_clear. now apply anc_closed_dclosed. }
+  2:{ cbn [fst snd]. split; [reflexivity|intro q; reflexivity]. }
   assert (Hty : e_ty (entry_of m) = aty m) by reflexivity. rewrite Hty.
   assert (Hok : forall b, (if negb b then (ERR_INVALID, n)
                            else (KDUMP_OK, fst (update_at p (store_val v) true n))) =
                           (if b then (KDUMP_OK, fst (update_at p (store_val v) true n))
                            else (ERR_INVALID, n))) by (intros []; reflexivity).
   destruct ty.
-  - cbn [fst snd]. split; [reflexivity|]. split; [intro q; apply (dict_clear p n m Hm)|exact Hclr].
+  - cbn [fst snd]. split; [reflexivity|intro q; apply (dict_clear p n m Hm)].
   - rewrite Hok. destruct (atype_eqb TDir (aty m)); cbn [fst snd];
-      (split; [reflexivity|]; split; [intro q; first [apply (dict_set v p n m Hcl Hm)|reflexivity]|assumption]).
+      (split; [reflexivity|intro q; first [apply (dict_set v p n m Hm)|reflexivity]]).
   - rewrite Hok. destruct (atype_eqb TNum (aty m)); cbn [fst snd];
-      (split; [reflexivity|]; split; [intro q; first [apply (dict_set v p n m Hcl Hm)|reflexivity]|assumption]).
+      (split; [reflexivity|intro q; first [apply (dict_set v p n m Hm)|reflexivity]]).
   - rewrite Hok. destruct (atype_eqb TAddr (aty m)); cbn [fst snd];
-      (split; [reflexivity|]; split; [intro q; first [apply (dict_set v p n m Hcl Hm)|reflexivity]|assumption]).
+      (split; [reflexivity|intro q; first [apply (dict_set v p n m Hm)|reflexivity]]).
   - rewrite Hok. destruct (atype_eqb TStr (aty m)); cbn [fst snd];
-      (split; [reflexivity|]; split; [intro q; first [apply (dict_set v p n m Hcl Hm)|reflexivity]|assumption]).
+      (split; [reflexivity|intro q; first [apply (dict_set v p n m Hm)|reflexivity]]).
   - rewrite Hok. destruct (atype_eqb TBmp (aty m)); cbn [fst snd];
-      (split; [reflexivity|]; split; [intro q; first [apply (dict_set v p n m Hcl Hm)|reflexivity]|assumption]).
+      (split; [reflexivity|intro q; first [apply (dict_set v p n m Hm)|reflexivity]]).
   - rewrite Hok. destruct (atype_eqb TBlob (aty m)); cbn [fst snd];
-      (split; [reflexivity|]; split; [intro q; first [apply (dict_set v p n m Hcl Hm)|reflexivity]|assumption]).
+      (split; [reflexivity|intro q; first [apply (dict_set v p n m Hm)|reflexivity]]).
 Qed.
 
 (** * histories of checked sets and clears *)
@@ -586,7 +565,8 @@ Lemma d_step_deq p ty v d1 d2 :
 Proof.
   intro He. unfold d_step. rewrite (He p).
   destruct (d2 p) as [e|]; [|split; [reflexivity|exact He]].
-  assert (Hs : deq (d_set p v d1) (d_set p v d2)) by (intro q; unfold d_set; now rewrite (He q)).
+  assert (Hs : deq (d_set p v d1) (d_set p v d2)).
+  { intro q. unfold d_set. rewrite (He q). now rewrite (inst_reach_ext q p d1 d2 He). }
   assert (Hc : deq (d_clear p d1) (d_clear p d2)) by (intro q; unfold d_clear; now rewrite (He q)).
   destruct ty; cbn [fst snd]; try (split; [reflexivity|exact Hc]);
     destruct (atype_eqb _ (e_ty e)); cbn [fst snd]; split; auto.
@@ -606,14 +586,13 @@ Qed.
 (** every history of sets, clears and refused sets on a tree is the same
     history on its dictionary: same statuses, same resulting dictionary *)
 Theorem history_refines ops : forall n,
-  anc_closed n ->
   fst (ttrace ops n) = fst (dtrace ops (dict_of n)) /\
   deq (dict_of (snd (ttrace ops n))) (snd (dtrace ops (dict_of n))).
 Proof.
-  induction ops as [|[[p ty] v] t IH]; intros n Hcl; [split; [reflexivity|intro q; reflexivity]|].
-  cbn [ttrace dtrace]. destruct (tset_step p ty v n Hcl) as (H1 & H2 & H3).
+  induction ops as [|[[p ty] v] t IH]; intros n; [split; [reflexivity|intro q; reflexivity]|].
+  cbn [ttrace dtrace]. destruct (tset_step p ty v n) as (H1 & H2).
   destruct (tset p ty v n) as [st n'], (d_step p ty v (dict_of n)) as [st' d']. cbn [fst snd] in *. subst st'.
-  destruct (IH n' H3) as [H4 H5].
+  destruct (IH n') as [H4 H5].
   destruct (dtrace_deq t (dict_of n') d' H2) as [H6 H7].
   destruct (ttrace t n') as [l nf], (dtrace t (dict_of n')) as [l1 f1], (dtrace t d') as [l2 f2].
   cbn [fst snd] in *. subst. split; [reflexivity|].
@@ -932,15 +911,33 @@ Qed.
 
 Definition dl_dict (l : alist) : dictionary := fun q => dl_find q l.
 
-Lemma dl_find_set p v l q : dl_find q (dl_set p v l) = d_set p v (dl_dict l) q.
+Lemma dl_find_map_set (g : dictionary) p v t q :
+  dl_find q (map (fun qe : path * entry =>
+         let '(q0, e) := qe in
+         if path_eqb q0 p then
+           (q0, {| e_ty := e_ty e; e_set := true; e_persist := true;
+                   e_val := match e_ty e with TDir => e_val e | _ => v end |})
+         else if inst_reach g q0 p then
+           (q0, {| e_ty := e_ty e; e_set := true; e_persist := e_persist e; e_val := e_val e |})
+         else (q0, e)) t) =
+  match dl_find q t with
+  | None => None
+  | Some e =>
+      if path_eqb q p then
+        Some {| e_ty := e_ty e; e_set := true; e_persist := true;
+                e_val := match e_ty e with TDir => e_val e | _ => v end |}
+      else if inst_reach g q p then
+        Some {| e_ty := e_ty e; e_set := true; e_persist := e_persist e; e_val := e_val e |}
+      else Some e
+  end.
 Proof.
-  unfold d_set, dl_dict. induction l as [|[q0 e] t IH]; [reflexivity|].
-  cbn [dl_set map dl_find].
+  induction t as [|[q0 e] t IH]; [reflexivity|].
+  cbn [map dl_find].
   destruct (path_eqb q0 p) eqn:E1; cbn [dl_find].
   - destruct (path_eqb q0 q) eqn:E2.
     + apply peqb_eq in E2. subst q0. now rewrite E1.
     + exact IH.
-  - destruct (strict_prefix q0 p) eqn:E3; cbn [dl_find].
+  - destruct (inst_reach g q0 p) eqn:E3; cbn [dl_find].
     + destruct (path_eqb q0 q) eqn:E2.
       * apply peqb_eq in E2. subst q0. now rewrite E1, E3.
       * exact IH.
@@ -948,6 +945,9 @@ Proof.
       * apply peqb_eq in E2. subst q0. now rewrite E1, E3.
       * exact IH.
 Qed.
+
+Lemma dl_find_set p v l q : dl_find q (dl_set p v l) = d_set p v (dl_dict l) q.
+Proof. unfold d_set, dl_dict, dl_set. apply dl_find_map_set. Qed.
 
 Lemma dl_find_clear p l q : dl_find q (dl_clear p l) = d_clear p (dl_dict l) q.
 Proof.
